@@ -12,6 +12,8 @@ CONSTANTS
   HostSets = {}
   Attrs = {"a1"}
   LocLists = {}
+  CModes = {"inline"}
+  RModes = {"inline"}
   Defects = {}
 SPECIFICATION Spec
 INVARIANTS Coherent LastUpdateWins RemovedGone EndpointsUnion ErrorsChangeNothing FrameCondition EmitCase
